@@ -25,9 +25,11 @@ TOML_EX = ["python/pdmlock", "python/poetrylock", "python/uvlock", "rust/cargolo
 # `witnesses` of them per extractor (expected failures), otherwise all of them.
 CLASSES = [
     {"id": "C02-toml-quadratic-nesting", "extractors": TOML_EX, "outcomes": ["OOM", "Timeout"], "stack": None,
-     "ops": [{"op": "Nest", "x": ["toml-inline", "toml-table"], "min_i": 10001}], "expensive": True, "witnesses": 2},
+     "ops": [{"op": "Nest", "x": ["toml-inline", "toml-table"], "min_i": 10001}], "expensive": True, "witnesses": 3,
+     "prefer": ["Nest(toml-inline,10001,bare)"]},
     {"id": "C02-macapps-plist-parser", "extractors": ["os/macapps"], "outcomes": ["Panic", "OOM", "Timeout"], "stack": r"github\.com/groob/plist",
-     "ops": [], "expensive": True, "witnesses": 12},
+     "ops": [], "expensive": True, "witnesses": 12,
+     "prefer": ["HeaderEdit(tail,word4,zero)", "Replace(open->nul,all)", "HeaderEdit(head,word3,zero)"]},
     {"id": "C02-containerd-bbolt-corrupt-db", "extractors": ["containers/containerd"], "outcomes": ["Panic"], "stack": r"go\.etcd\.io/bbolt",
      "ops": [], "expensive": False},
     {"id": "C02-dotnetpe-saferwall-alloc", "extractors": ["dotnet/pe"], "outcomes": ["OOM"], "stack": None, "ops": [], "expensive": False},
@@ -95,7 +97,7 @@ def part_a(ck, replay):
         listed = [c for c in CLASSES if c["id"] in ck.known]
         kf = os.path.join(work, "known.json")
         with open(kf, "w") as fh:
-            json.dump([{"id": c["id"], "extractors": c["extractors"], "ops": c["ops"], "witnesses": c["witnesses"]}
+            json.dump([{"id": c["id"], "extractors": c["extractors"], "ops": c["ops"], "witnesses": c["witnesses"], "prefer": c.get("prefer", [])}
                        for c in listed if c["expensive"]], fh)
         hargs += ["-a", "seed=%d" % ck.seed, "-a", "repo=" + vf.REPO, "-a", "known=" + kf]
         out = vf.run_harness("vmut", "mutate", None, args=hargs, infile=plans_file, timeout=3400)
